@@ -121,6 +121,9 @@ def p3(run, m, pats):
                 t = u(c.func)
                 if _is_ws_normalisation(c, pats):
                     continue
+                if t.startswith('_preprocess_') or t.startswith('_workaround_'):
+                    order.append((t, st.lineno))
+                    continue
                 if t in ('_remove_line_directives', '_r_comment.sub', '_put_back_line_directives', '_r_define.finditer', '_r_define.sub',
                          '_preprocess_extern_python', '_r_partial_array.sub', '_r_other_whitespace.sub') or (t.startswith('_r_') and t.endswith('.sub')) or (isinstance(c.func, ast.Attribute) and c.func.attr == 'replace' and 'csource' in t):
                     order.append((t, st.lineno))
@@ -129,6 +132,9 @@ def p3(run, m, pats):
     ic = names.index('_r_comment.sub')
     first_rewrite = names[0] if names else None
     run.ob('P3/directives-set-aside-before-any-other-rewrite', '_preprocess', 'first rewrite: %s' % first_rewrite, first_rewrite == '_remove_line_directives', m.where(fn), str(names[:4]))
+    run.ob('P3/comments-removed-before-any-other-text-is-scanned', '_preprocess', 'second rewrite: %s' % (names[1] if len(names) > 1 else None),
+           len(names) > 1 and names[1] == '_r_comment.sub', m.where(fn),
+           'a step that scans the text (for braces, semicolons, keywords, "...") before comments are gone sees the text inside comments: a comment can then change the result')
     run.ob('P3/directives-collected-again-after-comment-removal', '_preprocess', '_remove_line_directives after _r_comment.sub',
            '_remove_line_directives' in names[ic + 1:] and (names.index('_remove_line_directives', ic + 1) < min([i for i, t in enumerate(names) if i > ic and t != '_remove_line_directives'] or [10 ** 6])),
            m.where(fn), 'a comment in front of `# N` makes the line a directive (translation phase 3 before 4); sequence: %s' % names[ic:ic + 3])
@@ -218,5 +224,5 @@ def check(run):
                'cdef sources contain no string literals outside line directives (documented restriction of cffi)')
     run.assume('decided: what the three patterns denote on the listed classes, what replaces a comment, the order of the rewrites and the white-space '
                'normalisation; not decided: byte-identity of emit_c_code() for every insertion (that quantifies over all texts)')
-    for rule, k in (('P1', 5), ('P2', 30), ('P3', 12), ('P4', 6), ('P5', 6)):
+    for rule, k in (('P1', 5), ('P2', 30), ('P3', 13), ('P4', 6), ('P5', 6)):
         run.min_instances(rule, k)
